@@ -90,7 +90,7 @@ def run_ebpf(rep, src_dir, tier, workdir):
                   "assumed zero on both sides (see harness/ebpf/model.c)"]
     rep.assumptions += ["policy entries have protocol TCP and a 16-bit port (what update_policy_elem_bpf_map writes)",
                         "a redirect target is not itself a policy key", "policy and skip map are constant during one schedule",
-                        "attempts that are simultaneously alive have distinct source ports",
+                        "connects that are in progress together have distinct source ports; a later attempt may reuse the source port of a finished one (whose record the agent may never have consumed)",
                         "a thread (tgid,tid) runs one connect at a time; a process has one uid/gid",
                         "map updates do not fail for lack of memory",
                         "tcp_v4_connect runs after connect4 of the same attempt (kernel: __inet_stream_connect)"]
